@@ -88,7 +88,7 @@ def run_case(ctx, case):
   mono = None
   constrained = case["kind"] == "constrained"
   if constrained:
-    mode = str(rng.choice(["mixed", "all_inc_norm1", "dominance"]))
+    mode = str(rng.choice(["mixed", "all_inc_norm1", "dominance", "dominance_norm1"]))
     if mode == "mixed":
       mono = [int(rng.choice([-1, 0, 1])) for _ in range(n)]
       kw = dict(monotonicities=mono)
@@ -99,6 +99,10 @@ def run_case(ctx, case):
     else:
       mono = [1] * n
       kw = dict(monotonicities=mono)
+      if mode == "dominance_norm1":
+        # dominance together with the weighted-average normalisation (no bias): both must hold after one projection
+        kw["normalization_order"] = 1
+        case = dict(case, use_bias=False)
       if n >= 2:
         pairs, _ = graphs.dag_pairs(rng, list(range(n)))
         if rng.rand() < .5:
